@@ -41,7 +41,9 @@ type c06Kind struct {
 
 func c06Kinds() []c06Kind {
 	var out []c06Kind
-	for _, n := range []string{"secret", "login", "create", "create-orphan", "create-batch", "create-root"} {
+	// secret-by-batch: the requester of the leased secret is a batch token with a
+	// parent (its leases are indexed under the parent token)
+	for _, n := range []string{"secret", "secret-by-batch", "login", "create", "create-orphan", "create-batch", "create-root"} {
 		out = append(out, c06Kind{n, false})
 	}
 	for _, n := range []string{"secret", "login", "create"} {
@@ -66,8 +68,11 @@ func c06Image(t *testing.T, nonTxn bool) (*Image, string) {
 	s.EnableAuth("ra/", "recauth")
 	s.WritePolicy("p06", c06Policy)
 	tok := s.CreateToken(s.Root, map[string]interface{}{"policies": []string{"p06"}, "ttl": "2h"})
+	c06Batch[nonTxn] = s.CreateToken(tok, map[string]interface{}{"policies": []string{"p06"}, "ttl": "1h", "type": "batch"})
 	return s.Image(), tok
 }
+
+var c06Batch = map[bool]string{}
 
 func c06Do(s *Sys, tok string, k c06Kind) c06Out {
 	req := &logical.Request{ClientToken: tok, Connection: &logical.Connection{RemoteAddr: "127.0.0.1"}}
@@ -76,6 +81,9 @@ func c06Do(s *Sys, tok string, k c06Kind) c06Out {
 	}
 	switch k.Name {
 	case "secret":
+		req.Operation, req.Path = logical.ReadOperation, "rec/lease/x"
+	case "secret-by-batch":
+		req.ClientToken = c06Batch[s.Opt.NonTxn]
 		req.Operation, req.Path = logical.ReadOperation, "rec/lease/x"
 	case "login":
 		req.ClientToken = ""
@@ -282,7 +290,7 @@ func TestVerifC06(t *testing.T) {
 			if kind.Name != "create-batch" && len(ids1) <= len(ids0) {
 				res.Violate("c06:no-lease-for-handed-out-credential", fmt.Sprintf("%s: request succeeded fault-free but no lease record was added", label), map[string]interface{}{"kind": kind, "nonTxn": nonTxn, "k": 0})
 			}
-			if kind.Name == "secret" && !kind.Wrap && len(idx1) <= len(idx0) {
+			if strings.HasPrefix(kind.Name, "secret") && !kind.Wrap && len(idx1) <= len(idx0) {
 				res.Violate("c06:no-index-for-leased-secret", fmt.Sprintf("%s: request succeeded fault-free but no token->lease index entry was added", label), map[string]interface{}{"kind": kind, "nonTxn": nonTxn, "k": 0})
 			}
 			if msg := trackingInvariant(s0); msg != "" {
@@ -321,7 +329,7 @@ func TestVerifC06(t *testing.T) {
 					if kind.Name != "create-batch" && len(idsA) <= len(idsB) {
 						res.Violate("c06:fault:credential-without-lease", fmt.Sprintf("%s, op %d [%s] failed: the client still received its %s but no lease record exists", label, k, what, kind.Name), rp)
 					}
-					if kind.Name == "secret" && !kind.Wrap && len(idxA) <= len(idxB) {
+					if strings.HasPrefix(kind.Name, "secret") && !kind.Wrap && len(idxA) <= len(idxB) {
 						res.Violate("c06:fault:secret-without-index", fmt.Sprintf("%s, op %d [%s] failed: the client received the secret but the token->lease index entry is missing", label, k, what), rp)
 					}
 				} else if k > regEnd {
@@ -340,7 +348,7 @@ func TestVerifC06(t *testing.T) {
 							res.Violate("c06:fault:partial-lease-records", fmt.Sprintf("%s, op %d [%s] failed: the client got an error but lease/index records remain: %v %v", label, k, what, extra, extraIdx), rp)
 						}
 					}
-					if tok0 != "" && kind.Name != "secret" && kind.Name != "create-batch" && s.Usable(tok0) {
+					if tok0 != "" && !strings.HasPrefix(kind.Name, "secret") && kind.Name != "create-batch" && s.Usable(tok0) {
 						res.Violate("c06:fault:usable-token-after-error", fmt.Sprintf("%s, op %d [%s] failed: the client got an error but the token minted by the request is usable", label, k, what), rp)
 					}
 				}
